@@ -14,7 +14,7 @@ ID = "C19"
 LEVEL = "exploration"
 SHRINK_BUDGET = 300
 RULE = (
-    "two case families. (a) generated HybridClass definitions (fields: 10 scalar kinds, String, scalar arrays 1-3 dims "
+    "three case families. (a) generated HybridClass definitions (fields: 10 scalar kinds, String, scalar arrays 1-3 dims "
     "static/dynamic any axis order, nested hybrid classes, Ref to hybrid classes; optional _rename; declared defaults "
     "and default factories on scalar/string/1-D array fields) x values in which fields are absent, deliberately equal "
     "to their default, or arbitrary. Oracle: H.from_dict(h.to_dict()) read through attributes AND through the "
@@ -23,7 +23,9 @@ RULE = (
     "zero) default is absent from the dictionary; the dictionary carries __class__ and nested hybrid fields are "
     "dictionaries carrying theirs. (b) generated reference-free struct / 1-D array types of the grammar x values: "
     "T(x._to_json()) reads back equal to x and to the model, _to_json of the rebuilt object equals the first one, and "
-    "the same through json text (JEncoder) where every leaf is JSON-representable. Non-trivial = (a) some field "
+    "the same through json text (JEncoder) where every leaf is JSON-representable. (c) hybrid classes whose fields are typed by "
+    "generated reference-free types of the grammar with arrays of STATIC compound items (arrays of structs, arrays of arrays, nested "
+    "plain structs declared through HybridClass): H.from_dict(h.to_dict()) read through the underlying struct equals the model. Non-trivial = (a) some field "
     "equals a non-zero default or the class has a nested class/array field, (b) the type nests a compound; distinct = "
     "distinct case JSON."
 )
@@ -39,7 +41,7 @@ def budget(tier):
 
 
 def essential_labels(tier):
-    return ["fam:hybrid", "fam:json", "has_default", "has_default_factory", "has_rename", "renamed_field_with_default", "value_equals_nonzero_default",
+    return ["fam:hybrid", "fam:json", "fam:typed", "array_of_compound_items_in_hybrid", "has_default", "has_default_factory", "has_rename", "renamed_field_with_default", "value_equals_nonzero_default",
             "field:hybrid", "field:ref", "array_2d", "field_absent", "json_text", "derived_class", "rebuilt_on_dirty_memory", "array_default_declared_as_length"]
 
 
@@ -50,6 +52,13 @@ def cases(draw, tier):
         h = draw(hybgen.hspecs(cfg))
         value = hybgen.hvalues(draw, h)
         return {"fam": "hybrid", "h": h, "value": value, "other_ctx": draw(st.booleans()), "via_buffer": draw(st.booleans()), "inherit": draw(st.integers(0, 3)) == 0, "dirty": draw(st.integers(0, 2)) == 0}
+    if draw(st.integers(0, 3)) == 0:
+        # a hybrid class whose fields are typed by arbitrary reference-free types of the grammar (arrays of structs,
+        # arrays of arrays, nested plain structs, strings ...): the struct classes are declared through HybridClass
+        cfg = tg.Cfg(tier, allow_refs=False, roots=("struct",))
+        spec = draw(tg.type_specs(cfg))
+        value = tg._draw_value(draw, spec, cfg)
+        return {"fam": "typed", "type": spec, "value": value}
     cfg = tg.Cfg(tier, allow_refs=False, allow_nd=False, allow_orders=False, roots=("struct", "struct", "array"))
     spec = draw(tg.type_specs(cfg))
     value = tg._draw_value(draw, spec, cfg)
@@ -279,7 +288,42 @@ def run_json(case):
     return Outcome(True, labels=sorted(labels), nontrivial=nontrivial)
 
 
+def run_typed(case):
+    spec, value = case["type"], case["value"]
+    labels = {"fam:typed"} | tg.type_labels(spec)
+    if any(s_["k"] == "array" and tg.is_dynamic(s_["item"]) for s_, _ in tg.subspecs(spec)):
+        # arrays of dynamically sized items are not among the field kinds the statement quantifies over (scalars,
+        # strings, scalar arrays, nested classes); this family adds arrays of STATIC compound items only
+        return Outcome(True, labels=["fam:typed_outside_domain"], nontrivial=False)
+    node = mat.materialise(spec, via_hybrid=True)
+    H = node.cls._DressingClass
+    kw = {fn: mat.build_arg(kid, value[fn], mat.Forms([0]), mat.Env(None, None)) for (fn, _), kid in zip(spec["fields"], node.kids)}
+    obj = sut(lambda: H(**kw))
+    if is_raised(obj):
+        return fail("construct_raised", f"{obj}", obj.key, labels)
+    got = sut(mat.walk, obj._xobject, node)
+    if is_raised(got) or tg.first_diff(spec, value, got):
+        return fail("construct_value", f"{got if is_raised(got) else tg.first_diff(spec, value, got)}", "construct", labels)
+    d = sut(obj.to_dict)
+    if is_raised(d):
+        return fail("to_dict_raised", f"{d}", d.key, labels)
+    back = sut(H.from_dict, d)
+    if is_raised(back):
+        return fail("from_dict_raised", f"{back}", back.key, labels)
+    g2 = sut(mat.walk, back._xobject, node)
+    if is_raised(g2):
+        return fail("rebuilt_read_raised", f"{g2}", g2.key, labels)
+    df = tg.first_diff(spec, _nz(spec, value), _nz(spec, g2))
+    if df:
+        return fail("rebuilt_differs", df, "typed", labels)
+    if any(s_["k"] == "array" and s_["item"]["k"] != "scalar" for s_, _ in tg.subspecs(spec)):
+        labels.add("array_of_compound_items_in_hybrid")
+    return Outcome(True, labels=sorted(labels), nontrivial=not any(lb == "depth_0" for lb in labels))
+
+
 def run_case(case):
     if case["fam"] == "hybrid":
         return run_hybrid(case)
+    if case["fam"] == "typed":
+        return run_typed(case)
     return run_json(case)
